@@ -184,7 +184,7 @@ func verifC14Zone() {
 					m.Answer = append(m.Answer, dns.RR{Name: origin, Type: 65, Class: 1, TTL: 60, Data: dns.HTTPS{Priority: 0, Target: "alias1.example"}})
 				case 1: // service mode, two records out of priority order, one with a target
 					m.Answer = append(m.Answer,
-						dns.RR{Name: origin, Type: 65, Class: 1, TTL: 60, Data: dns.HTTPS{Priority: 2, Target: "svc.example", ECH: []byte{2}}},
+						dns.RR{Name: origin, Type: 65, Class: 1, TTL: 60, Data: dns.HTTPS{Priority: []uint16{2, 40000}[vInt(0, 1)], Target: "svc.example", ECH: []byte{2}}}, // (priorities may lie far apart)
 						dns.RR{Name: origin, Type: 65, Class: 1, TTL: 60, Data: dns.HTTPS{Priority: 1, ECH: []byte{1}}})
 				case 2: // poisoned: records for unrelated owner names, one behind an off-chain CNAME
 					m.Answer = append(m.Answer,
